@@ -1039,6 +1039,42 @@ def model_guard_scopes(body):
     where GuardScope_ has a destructor, so the borrow is live to the end of the block on every exit path
     (only where the `if let` is a whole statement with no `else`)."""
     out = body
+    # named guards: `let [mut] G = X.rc_deref[_mut]();` — G is wrapped in GuardScope_ and every later use of
+    # G in the enclosing block reads `G.0`; an explicit `drop(G)` / `drop_guard_(G)` moves the wrapper, which
+    # ends the borrow there, as in the real code
+    for _ in range(8):
+        masked = mask_trivia(out)
+        gm_ = re.search(r"(?<![\w])let\s+(?:mut\s+)?(\w+)\s*=\s*([\w\.\s]+?\.\s*rc_deref(?:_mut)?\s*\(\s*\))\s*;", masked)
+        if not gm_ or "GuardScope_" in gm_.group(0):
+            break
+        g_ = gm_.group(1)
+        # enclosing block: the innermost `{` that is still open at the let
+        depth = 0
+        end_ = len(out)
+        for k in range(gm_.end(), len(masked)):
+            if masked[k] == "{":
+                depth += 1
+            elif masked[k] == "}":
+                if depth == 0:
+                    end_ = k
+                    break
+                depth -= 1
+        rest = out[gm_.end():end_]
+        rest_m = masked[gm_.end():end_]
+        # a later re-binding of the same name ends the renaming there
+        sh_ = re.search(r"(?<![\w])let\s+(?:mut\s+)?%s\b" % re.escape(g_), rest_m)
+        lim = sh_.start() if sh_ else len(rest)
+        def repl(mm):
+            pre = rest_m[max(0, mm.start() - 14):mm.start()]
+            if re.search(r"(drop|drop_guard_)\s*\(\s*$", pre):
+                return mm.group(0)
+            return mm.group(0) + ".0"
+        head = re.sub(r"(?<![\w.])%s\b(?!\s*:)" % re.escape(g_), repl, rest[:lim]) if True else rest[:lim]
+        # (positions in `rest_m` and `rest` coincide: masking keeps lengths)
+        # the declared guard-release marker `hold_(&G);` (the rewritten `drop(G)` of the real code) moves the wrapper
+        head = re.sub(r"hold_\(\s*&\s*%s\.0\s*\)\s*;" % re.escape(g_), "drop_guard_(%s);" % g_, head)
+        new_let = "let mut %s = GuardScope_(%s);" % (g_, out[gm_.start(2):gm_.end(2)])
+        out = out[:gm_.start()] + new_let + head + rest[lim:] + out[end_:]
     pos = 0
     for _ in range(20):
         masked = mask_trivia(out)
@@ -1144,11 +1180,13 @@ def process_fn(fn, spec, handle, stats, canary):
     # before that statement and the borrow checker must ACCEPT it
     if PROBE_MODE:
         for (fname, tags_, rx_s, place_) in getattr(spec, "freeprobes_at", []):
-            if fname != name:
+            if fname != name and fname != "*":
                 continue
             masked = mask_trivia(body)
             ms_ = list(re.finditer(rx_s, masked))
             if not ms_:
+                if fname == "*":
+                    continue   # `*`: every function of the impl that contains such a call (also one added later)
                 raise ExtractError("free probe: call site of %s not found: %s" % (name, rx_s))
             m_ = ms_[0]
             k_ = stmt_start_before(masked, m_.start())
@@ -1183,6 +1221,15 @@ def process_fn(fn, spec, handle, stats, canary):
             cl_ = match_close(body, op_, "(", ")")
             body = body[:lm.start()] + "Lazy::defer(%s)" % spec.lazy + body[cl_ + 1:]
             stats["R11"] = stats.get("R11", 0) + 1
+    # R14: `ready!(E)` (futures-rs) by its definition
+    for _ in range(6):
+        rm_ = re.search(r"\bready!\s*\(", mask_trivia(body))
+        if not rm_:
+            break
+        re_ = match_close(body, rm_.end() - 1, "(", ")")
+        body = (body[:rm_.start()] + "(match %s { Poll::Ready(ready_v_) => ready_v_, Poll::Pending => { return Poll::Pending; } })" % body[rm_.end():re_]
+                + body[re_ + 1:])
+        stats["R14"] = stats.get("R14", 0) + 1
     body = rewrite_iter_adapters(body, stats)
     body = rewrite_map_or(body, stats)
     body = drop_attrs_and_docs(body)
@@ -1886,7 +1933,31 @@ def generate_(template_path, variant, canary=False):
             stats["sources"].append("fn %s::%s" % (path, name))
             continue
         raise ExtractError("%s:%d: unknown directive %s" % (template_path, i + 1, d))
-    text = FILE_HEAD + prelude + "\n// ===== unit text (extracted from /repo + contracts) =====\n" + "\n".join(out) + FILE_TAIL
+    unit_text = "\n".join(out)
+    # R15: file-level `const NAME: T = literal;` items of the source files that the extracted text refers to
+    # are copied along (a body that starts using a named constant still types)
+    consts = []
+    have = set(re.findall(r"\b(?:const|static)\s+([A-Z][A-Z0-9_]+)\b", prelude + unit_text))
+    used = set(re.findall(r"\b([A-Z][A-Z0-9_]{2,})\b", mask_trivia(unit_text))) - have
+    paths = []
+    for s_ in stats["sources"]:
+        pm_ = re.match(r"\w+\s+(\S+?\.rs)", s_)
+        if pm_ and pm_.group(1) not in paths:
+            paths.append(pm_.group(1))
+    for nm_ in sorted(used):
+        for pth in paths:
+            try:
+                src_ = mask_trivia(source(pth))
+                raw_ = source(pth)
+            except ExtractError:
+                continue
+            cm_ = re.search(r"(?m)^(?:pub(?:\([^)]*\))?\s+)?const\s+%s\s*:\s*[\w:<>]+\s*=\s*[^;{}]+;" % re.escape(nm_), src_)
+            if cm_:
+                consts.append("pub " + re.sub(r"^pub(\([^)]*\))?\s+", "", raw_[cm_.start():cm_.end()]) + " // R15: copied from %s" % pth)
+                stats["R15"] = stats.get("R15", 0) + 1
+                break
+    text = (FILE_HEAD + prelude + "\n// ===== unit text (extracted from /repo + contracts) =====\n"
+            + ("\n".join(consts) + "\n" if consts else "") + unit_text + FILE_TAIL)
     return text, stats
 
 
